@@ -38,7 +38,7 @@ def attribute(exe, env, idx, data, off, metapath):
 
 def run(tier, replay=None):
     res = common.Result('C14', tier, 'exploration')
-    total = 320 if tier == 'quick' else 5000
+    total = 320 if tier == 'quick' else 15000
     d = common.scratch_dir()
     builds = []
     exe_plain = common.hbuild('h_file', ['h_file.cpp', 'alloc.cpp'], 'plain', extra=['-DWITH_ALLOC'], need_reflect=True)
